@@ -70,6 +70,7 @@ class RunState:
         self.exec_log: list[str] = []  # job names in command start order
         self.completed_log: list[str] = []
         self.failure_log: list[tuple[str, str, str]] = []  # (job, phase, why)
+        self.fail_sites: list[tuple[str, str]] = []  # (job, step name) parallel to failure_log
         self.job_dirs: dict[str, tuple[str, str, str]] = {}
         self.job_outputs: dict[str, list[str]] = {}  # job -> output paths written
         self.lost_jobs: set[str] = set()
@@ -277,6 +278,7 @@ class GateCommand(Command):
         await _gate(f"job:{job.name}#{n}")
         if fault is not None:
             run.failure_log.append((job.name, "execute", fault["kind"]))
+            run.fail_sites.append((job.name, self.step.name))
             if fault["kind"] == "failstop":
                 _lose(run, context, job, fault.get("lose"))
             if fault["kind"] == "raise":
@@ -292,6 +294,7 @@ class GateCommand(Command):
             except FileNotFoundError as e:
                 # missing input data = ordinary (recoverable) job failure, logged as collateral
                 run.failure_log.append((job.name, "execute", f"missing-input:{e}"))
+                run.fail_sites.append((job.name, self.step.name))
                 out = CommandOutput(f"missing input {e}", Status.FAILED)
         job_token = get_job_token(job.name, cast(ExecuteStep, self.step).get_job_port().token_list)
         await context.database.update_execution(
@@ -308,6 +311,7 @@ class PlanScheduleStep(ScheduleStep):
         n, fault = RUN.hit(job.name, "schedule")
         if fault is not None:
             RUN.failure_log.append((job.name, "schedule", fault["kind"]))
+            RUN.fail_sites.append((job.name, self.name))
             if fault["kind"] == "failstop":
                 _lose(RUN, self.workflow.context, job, fault.get("lose"))
             raise WorkflowExecutionException(f"Injected error into {self.name}")
@@ -330,9 +334,11 @@ class PlanTransferStep(TransferStep):
                     dst_locations=dst_locations, dst_path=dst_path, writable=True)
             except (WorkflowExecutionException, OSError) as err:
                 RUN.failure_log.append((job.name, "transfer", f"collateral:{type(err).__name__}"))
+                RUN.fail_sites.append((job.name, self.name))
                 raise WorkflowExecutionException(f"Job {job.name} failed transfer: {err}")
         else:
             RUN.failure_log.append((job.name, "transfer", "collateral:no-source"))
+            RUN.fail_sites.append((job.name, self.name))
             raise WorkflowExecutionException(f"Job {job.name} input does not exist: File {path}")
         return dst_path
 
@@ -353,6 +359,7 @@ class PlanTransferStep(TransferStep):
         n, fault = RUN.hit(job.name, "transfer")
         if fault is not None:
             RUN.failure_log.append((job.name, "transfer", fault["kind"]))
+            RUN.fail_sites.append((job.name, self.name))
             if fault["kind"] == "failstop":
                 _lose(RUN, self.workflow.context, job, fault.get("lose"))
             raise WorkflowExecutionException(f"Injected error into {self.name}")
